@@ -44,6 +44,7 @@ def main():
     if '--base' in a:          # a seed written against an earlier head that no longer applies to main
         base = a[a.index('--base') + 1]
     only = a[a.index('--only') + 1].split(',') if '--only' in a else None
+    tag = a[a.index('--tag') + 1] if '--tag' in a else ''     # second-round seeds: C02-r2-1 ...
     if '--checks' in a:
         checks = a[a.index('--checks') + 1].split(',')
     os.makedirs(ST, exist_ok=True)
@@ -53,7 +54,7 @@ def main():
             continue
         demo = os.path.join(src, 'demo%s.c' % k)
         note = os.path.join(src, 'note%s.txt' % k)
-        name = '%s-%s' % (pid, k)
+        name = '%s-%s%s' % (pid, (tag + '-') if tag else '', k)
         rd = os.path.join(ST, 'seed_' + name)
         sh(['git', '-C', '/repo', 'worktree', 'remove', '--force', rd]); shutil.rmtree(rd, ignore_errors=True)
         sh(['git', '-C', '/repo', 'worktree', 'prune'])
